@@ -30,6 +30,8 @@ CHECKS = {
          "Held on generated call sequences with repeats, page settings, other content, save/open cycles and template rendering; every save is resolved and compared with the latest call per kind."),
  "C10": ("exploration", "image ledger (unique bytes per addition) compared with what an independent reader resolves from every a:blip through the relationships to the media bytes; extent model within 2 EMU; existing media of opened packages byte-compared", "4/C10",
          "Held on generated histories of body/cell/template image additions of three formats with hostile names and all size configurations, interleaved with other relationship-creating calls, save/open cycles and opened foreign packages carrying media."),
+ "C15": ("exploration", "per-call ledgers (list requests, per-document note ledger, heading list) compared with what an independent reader resolves in the saved package: numId->num->abstractNum->lvl, notes parts per document, entries of the TOC control; counts and removal results compared at the API", "4/C15",
+         "Held on generated list/note/TOC call sequences on new and reopened documents, one and several live documents, all list types/symbols/levels -1..25/start numbers, MaxLevel 1-9, update and regenerate."),
 }
 PENDING = {}
 ALL = ["C%02d" % i for i in range(1, 21)]
